@@ -10,6 +10,9 @@ source; a lost anchor raises Lost, which checks/c19.py turns into core.TieBroken
   refGuards       for every `bool X::GetReference(...)`: (a) starts with the throw guard, or
                   (b) forces `init_dict = false` under `frame.Sandboxed` before its first SetField
                   (IndexerExpression), or (c) contains no SetField at all (cannot write)
+  initDictOff     IndexerExpression::GetReference has `if (frame.Sandboxed) init_dict = false;` before its first
+                  use of init_dict / nested GetReference
+  refGetSandboxed the literal `sandboxed` argument of GetFieldByName in Reference::Get (lib/base/reference.cpp)
   callCheck       FunctionCallExpression::DoEvaluate contains
                   `if (!func->IsSideEffectFree() && frame.Sandboxed) BOOST_THROW_EXCEPTION(` before the
                   arguments are evaluated and before VMOps::FunctionCall
@@ -170,6 +173,26 @@ def extract(repo):
         refs.append((k, ok))
     t["refGuards"] = refs
 
+    # --- the init_dict guard itself (expression.cpp:758-759), as an entry of its own
+    ib = dict(rf)["IndexerExpression"]
+    m = re.search(r"if\s*\(\s*frame\.Sandboxed\s*\)\s*init_dict\s*=\s*false\s*;", ib)
+    first_use = re.search(r"GetReference\s*\(|if\s*\(\s*init_dict\s*\)", ib)
+    t["initDictOff"] = bool(m) and (first_use is None or m.start() < first_use.start())
+
+    # --- references (lib/base/reference.cpp): which sandbox flag does a read through a Reference use
+    rsrc = read(repo, "lib/base/reference.cpp")
+    gb = bodies(rsrc, re.compile(r"^Value\s+(Reference)::Get\s*\(\s*\)\s*const\s*\{", re.M))
+    if len(gb) != 1:
+        raise Lost("reference.cpp: Value Reference::Get() const not found")
+    m = re.search(r"GetFieldByName\s*\(", gb[0][1])
+    if not m:
+        raise Lost("reference.cpp: GetFieldByName call not found in Reference::Get")
+    p0 = gb[0][1].index("(", m.end() - 1)
+    a = split_args(gb[0][1][p0 + 1:match_close(gb[0][1], p0, "(", ")")])
+    if len(a) < 2:
+        raise Lost("reference.cpp: cannot read the sandboxed argument of GetFieldByName in Reference::Get")
+    t["refGetSandboxed"] = a[1] == "true"
+
     # --- call check
     fc = dict(ev)["FunctionCallExpression"]
     m = re.search(r"if\s*\(\s*!\s*func->IsSideEffectFree\s*\(\s*\)\s*&&\s*frame\.Sandboxed\s*\)\s*BOOST_THROW_EXCEPTION\s*\(", fc) or \
@@ -299,6 +322,10 @@ def render(t):
     o.append("def callCheck : Bool := " + lean_bool(t["callCheck"]))
     o.append("/-- Object::GetFieldByName: `sandboxed` + FANoUserView throws before the field is read -/")
     o.append("def fieldCheck : Bool := " + lean_bool(t["fieldCheck"]))
+    o.append("/-- IndexerExpression::GetReference forces `init_dict = false` under frame.Sandboxed before using it -/")
+    o.append("def initDictOff : Bool := " + lean_bool(t["initDictOff"]))
+    o.append("/-- Reference::Get reads its field with the literal `sandboxed = true` -/")
+    o.append("def refGetSandboxed : Bool := " + lean_bool(t["refGetSandboxed"]))
     o.append("/-- ScriptFrame::InitializeFrame inherits `Sandboxed` from the enclosing frame -/")
     o.append("def frameInherits : Bool := " + lean_bool(t["frameInherits"]))
     o.append("/-- VMOps::NewFunction creates script functions that are not side-effect free -/")
